@@ -261,7 +261,7 @@ fn main() {
     {
         let a = run_schedule(&w, &families[3].0, &[], &mut sport, root_pid);
         let b = run_schedule(&w, &families[3].0, &[], &mut sport, root_pid);
-        let f = |e: &Exec| format!("{:?}{:?}{:?}", e.order, e.alternatives, e.requests.iter().map(|m| m.header(hostcheck::AUTHZ)).collect::<Vec<_>>());
+        let f = |e: &Exec| format!("{:?}{:?}{:?}", e.order, e.alternatives, e.requests.iter().map(|m| m.header(hostcheck::AUTHZ).map(|v| v.split(' ').take(2).collect::<Vec<_>>().join(" "))).collect::<Vec<_>>()); // scheme and key id: the MAC covers the date header, i.e. the wall clock
         if f(&a) != f(&b) {
             vcommon::result::machinery(&format!("determinism gate: the default schedule gave different observations:\n{}\n{}", f(&a), f(&b)));
         }
